@@ -922,6 +922,39 @@ def fixed_histories() -> list[dict]:
     ]
     hs += triage_histories()
     hs += spelling_histories()
+    hs += prefix_histories()
+    return hs
+
+
+# (round 5) the pack's OWN top-level folders whose name merely starts with (or is a proper prefix of) a declared override name
+PREFIX_PAIRS = [("lib", "library"), ("lib", "lib2"), ("lib", "libs"), ("lib", "lib_x"), ("lib", "lib0"), ("library", "lib"),
+                ("lib2", "lib"), ("foo", "foobar"), ("n", "ns"), ("nsx", "ns"), ("minecraf", "minecraft"), ("lib", "li")]
+
+
+def prefix_histories() -> list[dict]:
+    """`#override o` / `#link o` + own resources (function, class method, `new` JSON) under a folder `w` where one of o, w is a
+    proper prefix of the other: they belong to data/ns; data/<w> is a FOREIGN bystander namespace that exists beforehand with a
+    file at exactly the path a startswith-test would write (overwriting) and without one (creation)."""
+    cert = "\n".join(f"{k}={v}" for k, v in DEFAULT_CERT)
+    hs = []
+    for i, (o, w) in enumerate(PREFIX_PAIRS):
+        d = "link" if i % 3 == 1 else "override"
+        by = [] if w in ("ns", "minecraft") else [[f"data/{w}/function/init.mcfunction", "say foreign init"],
+                                                  [f"data/{w}/function/other.mcfunction", "say foreign other"],
+                                                  [f"data/{w}/advancement/keepme.json", '{"foreign":1}']]
+        tree = ([["readme.txt", "hi"], [f"data/{o}/function/old.mcfunction", "say o old"],
+                 ["data/library/function/init.mcfunction", "say foreign library"], ["data/lib2/function/a.mcfunction", "say lib2"],
+                 ["data/libs/advancement/adv.json", '{"foreign":2}']] + [x for x in by if not x[0].startswith(("data/library/function/init", ))])
+        if i % 2 == 0:
+            tree += [["data/ns/jmc.txt", cert], ["data/ns/function/old.mcfunction", "say old"]]
+        own = [fn(w + ".init"), f'new advancement({w}.adv) {{"b":2}}', f'class {w}.deep {{ function m() {{ say "m"; }} }}', fn(w + ".a")]
+        src1 = "\n".join([fn("g"), fn(o + ".h")] + own)
+        src2 = "\n".join([fn("f"), own[0], own[1], f'class {w} {{ function init2() {{ say "c"; }} new advancement(adv2) {{"c":3}} }}'])
+        hs.append(dict(ns="ns", pack_format="48" if i % 4 else "26", desc="d", out_exists=True, copy_src=None, init=tree,
+                       builds=[dict(src=src1, header=f"#{d} {o}"),
+                               dict(src=src2, header=f"#{d} {o}\n#override {o}zz"),
+                               dict(src=src1, header=f"#override {o}" + ("" if w in ("ns", "minecraft") else f"\n#{d} {w}")),   # now BOTH are declared
+                               dict(src=src2, header=None)]))                                       # no override: all own
     return hs
 
 
